@@ -158,17 +158,61 @@ def _f_kw(*a, **k): return [list(a), sorted(k.items())]
 
 
 def gen_callable(rng):
-    k = rng.randrange(6)
+    """(function, args, kwargs, settle): `settle` (or None) is run after the function was decorated and
+    before it is called - it gives a closure variable the value it has when the task is created"""
+    k = rng.randrange(8)
     n = rng.randint(0, 9)
-    if k == 0: return (lambda x: x * 2), (n,), {}
+    if k == 0: return (lambda x: x * 2), (n,), {}, None
     if k == 1:
         m = rng.randint(1, 5)
         def clos(x, y=1): return x * m + y
-        return clos, (n,), {'y': rng.randint(0, 3)}
-    if k == 2: return functools.partial(_f_add, n), (), {}
-    if k == 3: return _f_add, (n,), {'b': rng.randint(0, 3)}
-    if k == 4: return _f_kw, (n, 'x', [1, {'a': (2, 3)}]), {'z': None, 'q': 1.5}
-    return (lambda *a, **kw: (len(a), len(kw))), tuple(range(n % 4)), {'k%d' % i: i for i in range(n % 3)}
+        return clos, (n,), {'y': rng.randint(0, 3)}, None
+    if k == 2: return functools.partial(_f_add, n), (), {}, None
+    if k == 3: return _f_add, (n,), {'b': rng.randint(0, 3)}, None
+    if k == 4: return _f_kw, (n, 'x', [1, {'a': (2, 3)}]), {'z': None, 'q': 1.5}, None
+    if k == 5: return (lambda *a, **kw: (len(a), len(kw))), tuple(range(n % 4)), {'k%d' % i: i for i in range(n % 3)}, None
+    if k == 6:
+        # a helper defined below the function in the same scope (bound after decoration)
+        m = rng.randint(2, 5)
+        helper = None
+        def uses_helper(x): return helper(x) + 1
+        def settle():
+            nonlocal helper
+            helper = lambda v: v * m
+        return uses_helper, (n,), {}, settle
+    # a parameter of the enclosing scope that is settled after decoration
+    scale = 1
+    m = rng.randint(2, 7)
+    def scaled(x, y=0): return x * scale + y
+    def settle():
+        nonlocal scale
+        scale = m
+    return scaled, (n,), {'y': rng.randint(0, 3)}, settle
+
+
+def fn_case(rp, seed, i):
+    """one callable through both encoders; returns the list of (how, got, want) that differ"""
+    import random
+    bad = []
+    for how in ('PythonTask', 'pythontask'):
+        f, a, k, settle = gen_callable(random.Random('%s-fn-%d' % (seed, i)))
+        try:
+            if how == 'PythonTask':
+                if settle: settle()
+                want = f(*a, **k)
+                s = rp.PythonTask(f, a, k)
+            else:
+                dec = rp.PythonTask.pythontask(f)
+                if settle: settle()
+                want = f(*a, **k)
+                s = dec(*a, **k)
+            g, a2, k2 = rp.PythonTask.get_func_attr(s)
+            got = g(*a2, **(k2 or {}))
+        except Exception as e:
+            got = 'raised %r' % e
+        if got != want:
+            bad.append((how, got, want))
+    return bad, (a, k, settle is not None)
 
 
 def run(ctx):
@@ -262,31 +306,24 @@ def run(ctx):
     # -- function transport --------------------------------------------------------------
     bad_fn = 0
     nfn = ctx.n(200, 4000)
+    late = 0
     for i in range(nfn):
-        f, a, k = gen_callable(rng)
-        want = f(*a, **k)
-        ctx.case({'fn': i, 'args': repr(a), 'kwargs': repr(k)})
-        for how in ('PythonTask', 'pythontask'):
-            try:
-                if how == 'PythonTask':
-                    s = rp.PythonTask(f, a, k)
-                else:
-                    s = rp.PythonTask.pythontask(f)(*a, **k)
-                g, a2, k2 = rp.PythonTask.get_func_attr(s)
-                got = g(*a2, **(k2 or {}))
-            except Exception as e:
-                got = 'raised %r' % e
-            if got != want:
-                bad_fn += 1
-                ctx.fail('function-transport-changes-result:' + how, '%r != %r' % (got, want),
-                         {'kind': 'fn', 'index': i, 'seed': ctx.seed})
+        bad, (a, k, has_settle) = fn_case(rp, ctx.seed, i)
+        late += has_settle
+        ctx.case({'fn': i, 'args': repr(a), 'kwargs': repr(k), 'late_bound': has_settle}, nontrivial=has_settle)
+        for how, got, want in bad:
+            bad_fn += 1
+            ctx.fail('function-transport-changes-result:' + how, '%r != %r' % (got, want),
+                     {'kind': 'fn', 'index': i, 'seed': ctx.seed})
+    hit['late_bound_closures'] = late
     ctx.obligation('function transport: %d callables x {PythonTask, pythontask} decode to the same result' % nfn,
                    'tie', bad_fn == 0, '')
     ctx.traces += 2 * nfn
     ctx.extra['distribution'] = hit
     ctx.rule = ('descriptions: random mode (all constants + unset/empty), required attributes present/empty/absent, every '
                 'deprecated and current name set or not, use_mpi/ranks, bystander attributes; slots: cores/gpus as ints, '
-                '(index, occupation) tuples, dicts or per-rank lists; callables: lambdas, closures, partials, defaults, '
+                '(index, occupation) tuples, dicts or per-rank lists; callables: lambdas, closures, partials, defaults, closures whose '
+                'variables are bound between decoration and call, '
                 'nested builtin arguments; non-trivial = at least one deprecated attribute was set and verify succeeded')
     ctx.assume += ['dill/pickle/msgpack (serialize_obj/serialize_bson) are third-party: hypotheses of C19_transport, sampled here',
                    'ru.TypedDict type casting (verify) and as_dict/constructor are environment',
@@ -315,4 +352,8 @@ def replay(ctx, data):
         except Exception as e:
             print('observed:', repr(e))
             return False
+    if i['kind'] == 'fn':
+        bad, _ = fn_case(rp, i['seed'], i['index'])
+        print('observed:', bad)
+        return not bad
     return False
